@@ -1,11 +1,14 @@
 """C12 — cloned framers run like their originals and never share relative state; rear / raze.
 
+Lemmas    lean/IofloModel/Lemmas/Clones.lean, ClonesLeaf.lean (name-free stand-alone interpreter + refinement proof),
+          ClonesRaze.lean (exact effect of raze / rear)
 Model     lean/IofloModel/Model/Clones.lean   (Framer.clone / Frame.clone / Act.clone, Framer.resolveMoots, newMootTag /
           newAuxTag, House.presolvePresolvables / resolveResolvables, Frame.resolveAuxLinks, Rearer / Razer / Framer.prune,
           the framer core that drives the clones: enterAll / exitAll / segue / recur / Transiter, and Act.resolvePath via
           Model/ResolvePath.lean of C13)
 Theorems  lean/IofloModel/Props/C12.lean
-Tree      /repo + fixes/D12a-prune-nested-named-clones.patch + fixes/D12b-prune-exits-entered-clone.patch
+Tree      /repo with fixes/D12a-prune-nested-named-clones.patch and fixes/D12b-prune-exits-entered-clone.patch applied
+          (commits d39dc00, c9b68e2)
 Tie       generated programs (hosts that clone moot framers under named tags, `mine`, several `via` inodes; moots that
           clone / rear / raze later moots; rear and raze at arbitrary ticks) are written as FloScript, built by the REAL
           Builder and run by the REAL Skedder; observation through two doify deeds (a recorder and an end-of-tick
@@ -231,6 +234,7 @@ class Observer:
         self.snaps = []         # per tick: {"auxes": {(framer uid, frame): [uid…]}, "names": set, "live": {uid: name}}
         self.info = {}          # uid -> dict(name, tag, insular, razeable, original, def)
         self.who = []           # per tick: the framer object of every event of that tick
+        self.err_msg = ""       # text of a run-time exception, for the oracle only
 
     def house(self):
         return self.sk.houses[0]
@@ -400,6 +404,7 @@ def run_real(prog):
             raise
         except Exception as ex:
             err = type(ex).__name__
+            obs.err_msg = str(ex)
         lines.extend(RUN["log"])
         del RUN["log"][:]
         obs.who.append(list(RUN["who"]))
@@ -649,7 +654,8 @@ def malform(rng, prog):
     host = rng.choice(hosts)
     kid = rng.choice([f for f in host["frames"] if f["over"]] or host["frames"])
     k = rng.choice(["dup-tag", "unknown-orig", "not-moot", "bad-tag-need", "rear-noframe", "rear-me", "bad-first",
-                    "name-clash", "next-of-last", "tag-is-aux-name"])
+                    "name-clash", "next-of-last", "tag-is-aux-name", "self-clone", "clone-loop"])
+    moots = [f for f in p["framers"] if f["sched"] == "moot"]
     if k == "dup-tag":
         kid["items"] += [{"t": "aux", "of": "ma", "as": "dd", "via": None}, {"t": "aux", "of": "ma", "as": "dd", "via": None}]
     elif k == "unknown-orig":
@@ -668,6 +674,18 @@ def malform(rng, prog):
         p["framers"].append({"name": host["name"] + "_dd", "sched": "aux", "first": None, "via": None,
                              "frames": [{"name": "k0", "over": None, "via": None, "items": base_items()}]})
         kid["items"].append({"t": "aux", "of": "ma", "as": "dd", "via": None})
+    elif k == "self-clone":
+        # D5 (C14, fixed): a moot that clones itself is refused by Framer.resolveMoots
+        m = moots[0]
+        m["frames"][0]["items"].append({"t": "aux", "of": m["name"], "as": "me2", "via": None})
+        kid["items"].append({"t": "aux", "of": m["name"], "as": "dd", "via": None})
+    elif k == "clone-loop":
+        if len(moots) >= 2:
+            moots[-1]["frames"][0]["items"].append({"t": "aux", "of": moots[0]["name"], "as": "lp", "via": None})
+            moots[0]["frames"][0]["items"].append({"t": "aux", "of": moots[-1]["name"], "as": "lq", "via": None})
+        else:
+            moots[0]["frames"][0]["items"].append({"t": "aux", "of": moots[0]["name"], "as": "lp", "via": None})
+        kid["items"].append({"t": "aux", "of": moots[0]["name"], "as": "dd", "via": None})
     elif k == "next-of-last":
         host["frames"][-1]["items"].append({"t": "go", "far": "next", "needs": []})
     else:
@@ -780,6 +798,9 @@ def relative_refs_ok(obs):
             want = "framer.%s.frame.%s.%s" % (fname, frame, ref["p"])
         else:
             continue
+        if sname is None and ref["p"] == "?":
+            return ("O2/O1: framer %s frame %s: the frame has fewer acts than the original's script (item %d has no Act "
+                    "object): an act was lost when the frame was cloned" % (fname, frame, i))
         if sname is None or sname.strip(".") != want:
             return "O2: framer %s frame %s item %d: relative reference `%s` resolves to %r, the original's path with the own name is %r" % (
                 fname, frame, i, ref_text(ref), sname, want)
@@ -805,7 +826,7 @@ class CHECK(core.Check):
             "shares, write to inode-relative and absolute shares, use an actor-relative ioinit, say `done me`; every frame "
             "records enter / recur / exit; 15 % of the programs also read shared (non-relative) data; 10 % carry one script "
             "error (duplicate tag, unknown / non-moot original, unknown tag in a need, bad rear frame, bad first, clone "
-            "name clash, next of last, tag equal to a plain aux). non-trivial = built, some clone was entered, distinct by program")
+            "name clash, next of last, tag equal to a plain aux, a moot cloning itself directly or in a loop). non-trivial = built, some clone was entered, distinct by program")
     TRUSTED = ["correspondence: the generated FloScript is built by the real Builder and run by the real Skedder of the working "
                "tree (+ fixes D12a, D12b); observation through doify deeds only (recorder, counting deed, end-of-tick "
                "observer reading the live Framer / Frame / Act objects); compared line by line with the Lean interpreter "
@@ -822,17 +843,21 @@ class CHECK(core.Check):
                "carry clones below them, rear or raze (nested clones, rear / raze at run time are tied to the code by the "
                "correspondence and by the oracles O1 / O4 only); that Act.resolvePath on the TEXT of a reference is the "
                "prefix map (the segment-level statement is C12_relative_path_has_own_name / _is_substituted)",
-               "raze: proved are the selection (C12_raze_selects_only_razeable_insular, C12_raze_all_first_last) and that the "
-               "pruned object's registration is removed (C12_pruned_name_freed, C12_unregister_frees_name, "
-               "C12_freed_name_reusable); NOT proved as theorems: that pruning an auxiliary leaves the other entries of the "
-               "razing frame's aux list alone and that a razed object is in no other aux list (needs an ownership invariant "
-               "over whole runs; checked on every generated run by the correspondence — X lines — and by oracle O3)",
+               "C12_raze_leaf_clones_partial / C12_prune_leaf_clone_partial: the exact effect of raze (the named frame loses "
+               "exactly the selected razeable insular clones, every other frame and every other framer object is unchanged, "
+               "the selected clones end not entered and unregistered, no new name appears) is proved when the selected clones "
+               "have no auxiliaries below them (LeafObj) and the frame's aux list has no duplicates; unconditionally proved "
+               "are the selection (C12_raze_selects_only_razeable_insular, C12_raze_all_first_last) and that a pruned "
+               "object's registration is removed (C12_pruned_name_freed). NOT proved as theorems: the same exact effect when "
+               "a razed clone carries clones of its own (needs an ownership invariant over whole runs; checked on every "
+               "generated run by the correspondence - X / N lines - and by oracle O3)",
                "the model keeps integer `value` fields only; the CloneError branches of Frame.clone / Act.clone for already "
                "resolved links are folded into one test (unreachable: only moots are cloned and moots are never resolved); "
                "conditional auxiliaries, beacts, bids, slaves and `under` are not in the modelled subset (a clone cannot be "
                "a conditional auxiliary)",
-               "D5 (a moot that clones itself never finishes building) belongs to C14 and is not generated; in the model it "
-               "is Err.fuel",
+               "D5 (a moot that clones itself; C14) is fixed in /repo: resolveMoots refuses it with ResolveError (the lineage "
+               "test is in the model; generated as malformed kinds self-clone / clone-loop); a reared clone starts with an "
+               "empty lineage, as in the code",
                "observation: the store is never cleaned, so a clone reared under the name of a razed one starts with the "
                "relative shares the razed one left (same inputs => same run still holds; oracle O4 skips such clones)"]
     TECHNIQUE = "Lean 4 theorems on a transcribed clone / rear / raze model (refinement to a name-free interpreter) + differential and metamorphic correspondence"
@@ -843,13 +868,17 @@ class CHECK(core.Check):
                   "C12_frame_clone_copies_script, C12_frame_clone_of_unresolved, C12_clone_copies_definition, "
                   "C12_clone_fails_iff; names - C12_clone_registers_fresh_name, C12_clone_keeps_names_distinct, "
                   "C12_new_tag_fresh (newMootTag / newAuxTag), C12_surname_of_clone / _of_original, "
-                  "C12_name_parts_injective; raze - C12_raze_selects_only_razeable_insular, C12_raze_all_first_last, "
-                  "C12_unregister_frees_name, C12_pruned_name_freed, C12_freed_name_reusable; behaviour (PARTIAL: framer "
-                  "objects without auxiliaries below them) - C12_leaf_refines_partial, C12_leaf_refines_checkStart_partial, "
-                  "C12_clone_runs_like_original_partial, C12_same_events, C12_situation_stable, C12_prefix_map_resolves. "
-                  "Tied to the code by building and running generated clone / rear / raze programs with the real Builder "
-                  "and Skedder and comparing every line with the Lean interpreter; the oracle rebuilds each program with a "
-                  "clone replaced by its original as an ordinary auxiliary and demands identical traces.")
+                  "C12_name_parts_injective; rear - C12_rear_creates_fresh_insular_razeable (fresh tag, free name surname_tag, "
+                  "copy of the original flagged clone+insular+razeable, fixed main frame, appended to the frame, nothing else "
+                  "touched); raze - C12_raze_selects_only_razeable_insular, C12_raze_all_first_last, C12_unregister_frees_name, "
+                  "C12_pruned_name_freed, C12_freed_name_reusable, and PARTIAL (clones without auxiliaries below them) "
+                  "C12_raze_leaf_clones_partial (exact effect on the whole house), C12_prune_leaf_clone_partial; behaviour "
+                  "(PARTIAL: framer objects without auxiliaries below them) - C12_leaf_refines_partial, "
+                  "C12_leaf_refines_checkStart_partial, C12_clone_runs_like_original_partial, C12_same_events, "
+                  "C12_situation_stable, C12_leaf_touches_only_itself, C12_prefix_map_resolves. Tied to the code by building "
+                  "and running generated clone / rear / raze programs with the real Builder and Skedder and comparing every "
+                  "line with the Lean interpreter; the oracle rebuilds each program with a clone replaced by its original as "
+                  "an ordinary auxiliary and demands identical traces.")
     LEVEL_NOTE = ("Trusted: Lean kernel; axioms propext, Classical.choice, Quot.sound; hand transcription of framing.py / "
                   "acting.py / housing.py / building.py clone, rear, raze and framer-core code validated only by the "
                   "correspondence runs on /repo + fixes D12a, D12b; clause text -> relative path taken from C13; CPython "
@@ -887,8 +916,9 @@ class CHECK(core.Check):
             return None                                   # does not build: nothing to say (C14)
         errs = [l for l in lines if l.startswith("ERR")]
         if errs:
-            if "CloneError" in errs[0] and not prog.get("malformed"):
-                return "O3: a run-time `rear` raised CloneError: the name of a razed clone (or of a clone below it) was not freed"
+            if ("CloneError" in errs[0] or "already exists" in obs.err_msg) and not prog.get("malformed"):
+                return ("O3: a run-time `rear` failed because the name it needs is taken (%s): the name of a razed clone (or of "
+                        "a clone below it) was not freed" % errs[0])
             return None                                   # other run-time errors: the model must predict them (stage B)
         why = relative_refs_ok(obs)
         if why:
